@@ -45,6 +45,9 @@ Definition expand (body pc : nat) (i : instr) : list micro :=
   | IArcGetMut k i => [MArcGetMut k i false]
   | IArcTryUnwrap k i => [MArcGetMut k i true]
   | ITrackDrop k => [MTrackDrop k]
+  | IBlockOn a v w => [MBlockOn a v w]
+  | IWake w => [MBranch w AOpaque BMutexLocked; MWakeTake w true]
+  | ITakeWaker w => [MBranch w AOpaque BMutexLocked; MWakeTake w false]
   | ITlsWith k => [MTlsWith k]
   | ILazyGet k => [MLazyGet k]
   | IPanic => [MPanic]
@@ -82,6 +85,7 @@ Definition create_object (d : decl) (caus released : vv) : object + panic :=
   | DCell => inl (OCell (cell_new caus))
   | DArc => inl (OArc (mkArc 1 vv_new (repeat None MAX_THREADS) None (repeat None MAX_THREADS)))
   | DTrack => inl (OAlloc false)
+  | DWaker => inl (OMutex (mkMutex false None None vv_new))
   end.
 
 Fixpoint create_objects (ds : list decl) (caus released : vv) : list object + panic :=
